@@ -15,6 +15,7 @@ package push
 
 import (
 	"context"
+	"runtime"
 	"sync"
 	"time"
 
@@ -194,8 +195,22 @@ func (b *Broker) message(ctx context.Context) map[string][]Message {
 			defer cancel()
 			select {
 			case <-ctx.Done():
-				go b.doHeartBeat(context.Background(), id)
-				return map[string][]Message{}
+				for {
+					// take the responder back, otherwise the next batch is sent into a channel nobody reads
+					if b.responders.RemoveCb(id, func(_ string, v interface{}, exists bool) bool {
+						return exists && v == interface{}(responder)
+					}) {
+						go b.doHeartBeat(context.Background(), id)
+						return map[string][]Message{}
+					}
+					// a publisher holds it: it delivers a batch or puts the responder back
+					select {
+					case result := <-responder:
+						return result
+					default:
+						runtime.Gosched()
+					}
+				}
 			case result := <-responder:
 				return result
 			}
